@@ -15,7 +15,9 @@ static struct cv_blk { char b[sizeof(struct Header) + 64]; } cv_blk __attribute_
 static int cv_callocs, cv_frees, cv_block_live; static size_t cv_calloc_size; static void* cv_freed;
 void* calloc(size_t n, size_t s) {
   cv_callocs++; cv_calloc_size = n * s;
-  if (nondet_bool()) return NULL;
+#if CELLO_MEMORY_CHECK == 1
+  if (nondet_bool()) return NULL;        /* allocation failure is in contract only in the checked build (OutOfMemoryError) */
+#endif
   __CPROVER_assert(n * s <= sizeof(cv_block), "harness block large enough");
   cv_blk = (struct cv_blk){{0}};
   cv_block_live = 1; return cv_block;
@@ -28,7 +30,11 @@ void free(void* p) {
 }
 /* ---- collector entry points (contracts discharged under C17/C06) ---- */
 static OBJ(Ref, GCOBJ); static int cv_sets, cv_rems; static var cv_set_key, cv_rem_key; static int64_t cv_set_root;
+#ifndef CELLO_NGC
 var current(var type) { __CPROVER_assert(type == GC, "current(GC)"); return &GCOBJ.v; }
+#else
+var current(var type) { return &GCOBJ.v; }
+#endif
 void set(var self, var key, var val) { __CPROVER_assert(self == (var)&GCOBJ.v, "registration goes to the thread's collector"); cv_sets++; cv_set_key = key; cv_set_root = ((struct Int*)val)->val; }
 void rem(var self, var key) { __CPROVER_assert(self == (var)&GCOBJ.v, "deletion goes to the thread's collector"); cv_rems++; cv_rem_key = key; }
 
@@ -39,7 +45,9 @@ void cv_on_throw(var obj) {
   ASSERT(obj != OutOfMemoryError || cv_callocs >= 1, "OutOfMemoryError only after an allocation attempt");
   if (watch) {
     ASSERT(cv_frees == 0, "[C19] a refused deallocation frees nothing");
+#if CELLO_ALLOC_CHECK == 1 && CELLO_MAGIC_CHECK == 1
     ASSERT(watch->type == old_hdr.type && watch->alloc == old_hdr.alloc && watch->magic == old_hdr.magic, "[C12] a refused deallocation leaves the object intact");
+#endif
   }
 }
 
@@ -48,11 +56,15 @@ void h_alloc(void) {
   var p = in_method == 0 ? alloc(TYPE_UNDER_TEST) : in_method == 1 ? alloc_raw(TYPE_UNDER_TEST) : alloc_root(TYPE_UNDER_TEST);
   ASSERT(cv_callocs == 1 && cv_calloc_size == sizeof(struct Header) + sizeof(struct TSTRUCT), "[C19] alloc obtains header + size(type) bytes");
   ASSERT(p == (var)(cv_block + sizeof(struct Header)), "alloc returns the address just after the header");
-  ASSERT(HDR(p)->type == TYPE_UNDER_TEST && HDR(p)->alloc == (var)AllocHeap && HDR(p)->magic == (var)CELLO_MAGIC_NUM, "[C19] a heap object carries (type, Heap, magic)");
+  ASSERT(HDR(p)->type == TYPE_UNDER_TEST && ALLOC_IS(p, AllocHeap) && MAGIC_OK(p), "[C19] a heap object carries (type, Heap, magic)");
   size_t gh_i = nondet_ulong(); __CPROVER_assume(gh_i < sizeof(struct TSTRUCT));
   ASSERT(((char*)p)[gh_i] == 0, "the object body is zero-filled");
   ASSERT(type_of(p) == TYPE_UNDER_TEST, "[C19] type_of gives the constructing type");
+#ifndef CELLO_NGC
   ASSERT(cv_sets == (in_method == 1 ? 0 : 1) && (in_method == 1 || (cv_set_key == p && cv_set_root == (in_method == 2))), "alloc registers managed and root objects with the collector (root flag as requested), raw objects not");
+#else
+  ASSERT(cv_sets == 0, "without a collector nothing is registered");
+#endif
   COVER(in_method == 0, "alloc"); COVER(in_method == 1, "alloc_raw"); COVER(in_method == 2, "alloc_root");
 }
 
@@ -76,13 +88,17 @@ void h_del(void) {
   var p = header_init(h, TYPE_UNDER_TEST, AllocHeap);
   int in_method = nondet_int(); __CPROVER_assume(in_method >= 0 && in_method <= 2);
   if (in_method == 0) del(p); else if (in_method == 1) del_raw(p); else del_root(p);
+#ifndef CELLO_NGC
   if (in_method == 1) { ASSERT(cv_frees == 1 && cv_freed == (void*)h && cv_rems == 0, "del_raw finalises and releases the object itself, exactly once"); }
   else { ASSERT(cv_rems == 1 && cv_rem_key == p && cv_frees == 0, "del/del_root hand the object to the collector's rem exactly once (which finalises and releases it, C06)"); }
+#else
+  ASSERT(cv_frees == 1 && cv_freed == (void*)h && cv_rems == 0, "without a collector every del finalises and releases the object itself, exactly once");
+#endif
   COVER(in_method == 0, "del"); COVER(in_method == 1, "del_raw");
 }
 void h_stack(void) {
   struct TSTRUCT* p = alloc_stack(TSTRUCT);
-  ASSERT(HDR(p)->type == TYPE_UNDER_TEST && HDR(p)->alloc == (var)AllocStack && HDR(p)->magic == (var)CELLO_MAGIC_NUM, "[C19] $ / alloc_stack objects carry (type, Stack, magic)");
+  ASSERT(HDR(p)->type == TYPE_UNDER_TEST && ALLOC_IS(p, AllocStack) && MAGIC_OK(p), "[C19] $ / alloc_stack objects carry (type, Stack, magic)");
   ASSERT(type_of(p) == TYPE_UNDER_TEST, "[C19] type_of of a stack object");
   watch = HDR(p); old_hdr = *HDR(p); expect_throw = 1; expect_exc = ResourceError; expect_exc2 = ValueError;  /* a destructor may refuse first (String_Del) */
   COVER(1, "stack object built");
@@ -90,7 +106,7 @@ void h_stack(void) {
   ASSERT(0, "[C19] del_raw of a stack object does not return normally");
 }
 void h_static(void) {
-  ASSERT(HDR(TYPE_UNDER_TEST)->alloc == (var)AllocStatic && HDR(TYPE_UNDER_TEST)->magic == (var)CELLO_MAGIC_NUM, "[C19] static type objects carry (Static, magic)");
+  ASSERT(ALLOC_IS(TYPE_UNDER_TEST, AllocStatic) && MAGIC_OK(TYPE_UNDER_TEST), "[C19] static type objects carry (Static, magic)");
   ASSERT(type_of(TYPE_UNDER_TEST) == Type, "[C19] the type of a static type object is Type");
   ASSERT(type_of(TYPE_UNDER_TEST) == Type, "[C19] ... also on the second lookup");
   watch = HDR(TYPE_UNDER_TEST); old_hdr = *watch; old_hdr.type = Type; expect_throw = 1; expect_exc = ResourceError;
